@@ -159,7 +159,7 @@ Proof.
   unfold converged_o, approx. simpl negb. simpl andb. rewrite !andb_true_iff, !forallb_forall. split.
   - intros [[[H1 H2] _] H3].
     assert (Hent : forall s c, In (s, c) src -> exists d, find_obs (st_path s) dest = Some d /\
-                     entry_ok (created_by_transfer prior s) s c d).
+                     entry_ok (inode_created prior src s) s c d).
     { intros s c Hin. specialize (H1 _ Hin). simpl in H1.
       destruct (find_obs (st_path s) dest) as [d|]; [|discriminate]. exists d. split; auto.
       apply entry_matches_o_iff; auto. }
@@ -191,7 +191,7 @@ Proof.
   unfold converged_o, approx_merge. simpl negb. simpl orb. rewrite !andb_true_iff, !forallb_forall. split.
   - intros [[[H1 H2] H3] H4].
     assert (Hent : forall s c, In (s, c) src -> exists d, find_obs (st_path s) dest = Some d /\
-                     entry_ok (created_by_transfer prior s) s c d).
+                     entry_ok (inode_created prior src s) s c d).
     { intros s c Hin. specialize (H1 _ Hin). simpl in H1.
       destruct (find_obs (st_path s) dest) as [d|]; [|discriminate]. exists d. split; auto.
       apply entry_matches_o_iff; auto. }
